@@ -175,6 +175,36 @@ def run(ctx, R, tier):
             and isinstance(n.right, ast.Call) and unparse(n.right.func) == "len"]
     R.check(bool(sums) and all(s.left.value == csize for s in sums), "C06-R3", "encoder|chunk-overhead", "the encoder counts %d bytes of header per annotation chunk" % csize,
             snd.loc(sums[0]) if sums else snd.loc(), "annotations_size is summed with a per-chunk overhead that differs from calcsize(%r) = %d" % (cfmt, csize))
+    # the encoder refuses annotation ids that do not fill the fixed id field, and values that are not bytes-like (their len() would not be their byte count)
+    scfg = ctx.cfg(snd)
+    cp = chunk_packs[0]
+    idexpr = None
+    for a in cp.args[1:]:
+        for n in ast.walk(a):
+            if isinstance(n, ast.Name) and idexpr is None:
+                idexpr = n.id
+    idw = int(coffs[0][1])
+
+    def id_fits(atom, pol):
+        if isinstance(atom, ast.Compare) and len(atom.ops) == 1 and isinstance(atom.left, ast.Call) and unparse(atom.left.func) == "len" and atom.left.args \
+                and unparse(atom.left.args[0]) == idexpr and isinstance(atom.comparators[0], ast.Constant) and atom.comparators[0].value == idw:
+            return (isinstance(atom.ops[0], ast.NotEq) and pol is False) or (isinstance(atom.ops[0], ast.Eq) and pol is True)
+        return False
+    ok = idexpr is not None and all(scfg.guarded(n, lambda e: edge_has_fact(e, id_fits)) for n in ctx.node_of(snd, cp))
+    R.check(ok, "C06-R3", "encoder|annotation-id-width-checked", "a chunk header is packed only for an id of exactly %d characters" % idw, snd.loc(cp),
+            "annotation ids of another length than %d are packed (struct pads or truncates them): the receiver decodes a different id than the sender was given" % idw)
+    lens = [c for c in walk_no_nested(cp) if isinstance(c, ast.Call) and unparse(c.func) == "len" and c.args and isinstance(c.args[0], ast.Name) and c.args[0].id != idexpr]
+    valexpr = lens[0].args[0].id if lens else None
+
+    def bytes_like(atom, pol):
+        if isinstance(atom, ast.Call) and unparse(atom.func) == "isinstance" and len(atom.args) == 2 and unparse(atom.args[0]) == valexpr:
+            return pol is True
+        return False
+    appends = [n for c, _ in ctx.cg.calls_of(snd) if isinstance(c.func, ast.Attribute) and c.func.attr == "append" and c.args and unparse(c.args[0]) == valexpr
+               for n in ctx.node_of(snd, c)]
+    ok = valexpr is not None and bool(appends) and all(scfg.guarded(n, lambda e: edge_has_fact(e, bytes_like)) for n in appends)
+    R.check(ok, "C06-R3", "encoder|annotation-value-bytes-like", "an annotation value is written only after it was found to be bytes-like", snd.loc(cp),
+            "annotation values of any type are joined into the message: the declared chunk length (len(v)) need not be the number of bytes written")
     lits = sorted({n.value for st in addp.node.body for w in walk_no_nested(st) if isinstance(w, ast.While)
                    for n in ast.walk(w) if isinstance(n, ast.Constant) and isinstance(n.value, int) and not isinstance(n.value, bool)})
     R.check(set(lits) <= {coffs[0][1], csize} and csize in lits, "C06-R3", "decoder|chunk-literals", "the decoder's chunk walk uses only the offsets %d and %d" % (coffs[0][1], csize),
